@@ -92,6 +92,8 @@ type quoteCell struct {
 	hasLit bool
 }
 
+var wfacts writerFacts // structure facts of cmd/gozodgen/writer.go and analyzer.go (facts.go)
+
 var (
 	repoFlag = flag.String("repo", "/repo", "library tree")
 	hdirFlag = flag.String("hdir", "", "harness module dir (for the replace of verifharness)")
@@ -155,6 +157,7 @@ func main() {
 		die("%v", err)
 	}
 	writeMethodTable(filepath.Join(c.OutDir, "methodtable.json"), *repoFlag)
+	wfacts = writeWriterFacts(filepath.Join(c.OutDir, "writerfacts.json"), *repoFlag)
 	if *mtOnly {
 		o.Close(nil)
 		return
@@ -277,6 +280,9 @@ func main() {
 	phase("termination cases")
 	runWide(o, tmp, gen, rng, c.Thorough())
 	phase("wide programs")
+	emitMultiName(o, tmp, gen, rng, c.Thorough())
+	emitBuildFiles(o, tmp, gen)
+	phase("multi-name fields, files outside the default build")
 	if err := o.Close(nil); err != nil {
 		die("%v", err)
 	}
